@@ -11,6 +11,9 @@ RULE = ("win: every table with <=4 rows, one key column over {0,1,None} and a va
         "window AND the real aggregate are called with the same arguments; the Lean driver compares window with the model and "
         "checks the defining equation window = aggregate joined back on the key on the two real results. malformed: wrong-length "
         "vectors must be rejected; hashseed (thorough): subprocess runs with different PYTHONHASHSEED and string keys. "
+        "Gap-analysis additions as for C12 (argument tuples / one-shot iterators, print-alike / hash-equal / temporal keys, many groups, "
+        "renamed-through-view tables, warm calls with other keys and value-cell edits); mix: non-int value columns over several groups, "
+        "window AND aggregate judged in Python against the textbook functions. "
         "non-trivial = at least two groups one of which has at least two rows")
 ASSUMPTIONS = c12.ASSUMPTIONS
 TRUSTED = c12.TRUSTED
@@ -18,6 +21,8 @@ BUDGET_S = {"quick": 22, "thorough": 330}
 
 
 def execute(spec):
+    if spec.get("mix"):
+        return c12.execute_mix(spec, ("window", "aggregate"))
     case, impls, skip = execute_group(spec, ("win", "agg"))
     if skip:
         return {"skip": skip}
@@ -31,6 +36,8 @@ def generate(rng, tier):
         yield c12.random_spec(rng, "win", interleave=(i % 3 != 2))
         if i % 10 == 0:
             yield c12.malformed(rng, "win")
+        if i % 8 == 0:
+            yield c12.mix_spec(rng, "win")
         if tier == "thorough" and i % 400 == 0:
             yield c12.hashseed_spec(rng, "win")
     if tier == "thorough":
